@@ -1,8 +1,107 @@
-/- Driver handler owned by property C20: `c20 <args…>` requests. -/
+/- Driver handler owned by property C20: `c20 <args…>` requests.
+
+   c20 mem <op> <op> …     run the operations on the GENERATED memory model (a panic leaves the
+                           memory unchanged, like the hook's `catch_unwind`); one answer token per
+                           operation:
+        a<n> allocate → ptr<k>      u push frame → unit     p pop frame → pop0 | pop1
+        o<p>,<off> offset → ptr<k>  r<p>,<n> read → b<hex>  w<p>,<hex> write → unit
+        c<to>,<from>,<n> copy → unit    g<p> get → unit     any panic → panic
+   c20 switch <x> <default> <k>:<l>,<k>:<l>,…   the generated `Switch` arm on a `u32` examinee and
+                           the model of Cranelift's Switch: `<evaluator label> <jit label|dup>`
+-/
+import RotoV.Generated.EvalMem
 import Driver.Util
 
 namespace Driver.C20
+open RotoV RotoV.Gen.EvalMem
 
-def handle (_args : List String) : String := "bad-op"
+/-- the harness is built in the debug profile -/
+def dbg : Bool := true
+
+def hexDigit (n : Nat) : Char :=
+  if n < 10 then Char.ofNat (48 + n) else Char.ofNat (87 + n)
+
+def hex (bs : List UInt8) : String :=
+  String.ofList (bs.flatMap fun b => [hexDigit (b.toNat / 16), hexDigit (b.toNat % 16)])
+
+def nums (s : String) : Option (List Nat) :=
+  (s.splitOn ",").mapM String.toNat?
+
+def step (m : Memory) (tok : String) : Memory × String :=
+  let kind := tok.take 1 |>.toString
+  let rest := tok.drop 1 |>.toString
+  match kind with
+  | "a" =>
+    match rest.toNat? with
+    | some n => match Memory.allocate dbg m n with
+      | .ok (m', p) => (m', s!"ptr{p}")
+      | .panic => (m, "panic")
+    | none => (m, "bad-op")
+  | "u" => match Memory.push_frame dbg m 0 none with
+    | .ok m' => (m', "unit")
+    | .panic => (m, "panic")
+  | "p" => match Memory.pop_frame dbg m with
+    | .ok (m', r) => (m', if r.isSome then "pop1" else "pop0")
+    | .panic => (m, "panic")
+  | "o" => match nums rest with
+    | some [p, o] => match Memory.offset_by dbg m p o with
+      | .ok (m', q) => (m', s!"ptr{q}")
+      | .panic => (m, "panic")
+    | _ => (m, "bad-op")
+  | "r" => match nums rest with
+    | some [p, n] => match Memory.read_slice dbg m p n with
+      | .ok bs => (m, "b" ++ hex bs)
+      | .panic => (m, "panic")
+    | _ => (m, "bad-op")
+  | "w" => match rest.splitOn "," with
+    | [p, h] => match p.toNat?, unhex h with
+      | some p, some bs => match Memory.write dbg m p bs with
+        | .ok m' => (m', "unit")
+        | .panic => (m, "panic")
+      | _, _ => (m, "bad-op")
+    | _ => (m, "bad-op")
+  | "g" => match rest.toNat? with
+    | some p => match Memory.get dbg m p with
+      | .ok _ => (m, "unit")
+      | .panic => (m, "panic")
+    | none => (m, "bad-op")
+  | "c" => match nums rest with
+    | some [t, f, n] => match Memory.copy dbg m t f n with
+      | .ok m' => (m', "unit")
+      | .panic => (m, "panic")
+    | _ => (m, "bad-op")
+  | _ => (m, "bad-op")
+
+def runMem (toks : List String) : String :=
+  match Memory.default dbg with
+  | .panic => "panic"
+  | .ok m0 =>
+    let (_, out) := toks.foldl (fun (acc : Memory × List String) t =>
+      let (m', o) := step acc.1 t
+      (m', o :: acc.2)) (m0, [])
+    " ".intercalate out.reverse
+
+def parseTable (s : String) : Option (List (Nat × Nat)) :=
+  if s == "-" then some [] else
+  (s.splitOn ",").mapM fun e =>
+    match e.splitOn ":" with
+    | [k, l] => do pure (← k.toNat?, ← l.toNat?)
+    | _ => none
+
+def handle (args : List String) : String :=
+  match args with
+  | "mem" :: toks => runMem toks
+  | ["switch", x, d, tbl] =>
+    match x.toNat?, d.toNat?, parseTable tbl with
+    | some x, some d, some t =>
+      let ev := match eval_Switch dbg (fun _ => .ok x) (.U32 ⟨BitVec.ofNat 32 x⟩) t d with
+        | .ok l => toString l
+        | .panic => "panic"
+      let jit := match cg_Switch t with
+        | .ok s => toString (s.target d x)
+        | .panic => "dup"
+      s!"{ev} {jit}"
+    | _, _, _ => "bad-op"
+  | _ => "bad-op"
 
 end Driver.C20
